@@ -66,6 +66,10 @@ pub struct ExploreStats {
     pub max_choice_points: usize,
     pub capped: bool,
     pub dev_bound: Option<usize>,
+    /// Executions that had to be repeated because the replay of their prefix did not
+    /// reproduce the recorded option counts (0 when the code under test is a
+    /// deterministic function of the schedule, as it is on the unchanged tree).
+    pub replay_retries: u64,
 }
 
 /// Machinery failure (never a verdict).
@@ -87,6 +91,8 @@ pub fn explore(
     };
     let mut prefix: Vec<u16> = Vec::new();
     let mut expected: Vec<(u16, u16)> = Vec::new();
+    let mut retries_here = 0u32;
+    const MAX_RETRIES: u32 = 8;
     loop {
         let (ch, cont) = f(&prefix)?;
         stats.executions += 1;
@@ -96,11 +102,9 @@ pub fn explore(
             stats.max_choice_points = stats.max_choice_points.max(ch.taken.len());
             return Ok(stats);
         }
+        let mut divergence: Option<String> = None;
         if ch.diverged {
-            return Err(Divergence(format!(
-                "replayed choice out of range: prefix {:?} taken {:?}",
-                prefix, ch.taken
-            )));
+            divergence = Some(format!("replayed choice out of range: prefix {:?} taken {:?}", prefix, ch.taken));
         }
         // Replay determinism: the option counts along the replayed prefix must
         // be the ones recorded when the prefix was produced.
@@ -108,22 +112,25 @@ pub fn explore(
             if i + 1 >= prefix.len() {
                 break;
             }
-            if ch.taken.get(i).map(|t| t.1) != Some(e.1) {
-                return Err(Divergence(format!(
-                    "replay divergence at choice point {}: expected {} options, got {:?}",
-                    i,
-                    e.1,
-                    ch.taken.get(i)
-                )));
+            if divergence.is_none() && ch.taken.get(i).map(|t| t.1) != Some(e.1) {
+                divergence = Some(format!("replay divergence at choice point {}: expected {} options, got {:?}", i, e.1, ch.taken.get(i)));
             }
         }
-        if ch.taken.len() < prefix.len() {
-            return Err(Divergence(format!(
-                "replay divergence: execution shorter ({}) than its prefix ({})",
-                ch.taken.len(),
-                prefix.len()
-            )));
+        if divergence.is_none() && ch.taken.len() < prefix.len() {
+            divergence = Some(format!("replay divergence: execution shorter ({}) than its prefix ({})", ch.taken.len(), prefix.len()));
         }
+        if let Some(d) = divergence {
+            // The execution did not follow the planned prefix. It was a real execution and the
+            // oracle has judged it; repeat the same prefix a few times before giving up (the
+            // code under test may depend on something the schedule does not fix, e.g. addresses).
+            retries_here += 1;
+            stats.replay_retries += 1;
+            if retries_here > MAX_RETRIES {
+                return Err(Divergence(d));
+            }
+            continue;
+        }
+        retries_here = 0;
         stats.max_choice_points = stats.max_choice_points.max(ch.taken.len());
         if stats.executions >= max_execs {
             stats.capped = true;
